@@ -730,7 +730,7 @@ class Interp:
         if a is TOP:
             return TOP
         out = []
-        for t in a:
+        for t in sorted(a, key=lambda t: (t is not NoneT, t.__name__)):
             if t is NoneT:
                 frame.raises.add(Raised('TypeError', 'subscript', ('NoneType',), True, e.lineno))
             elif t is str:
@@ -763,15 +763,16 @@ class Interp:
         f = self.ev(e.func, env, frame)
         args = []
         star = False
+        starred = []
         for a in e.args:
             if isinstance(a, ast.Starred):
                 star = True
-                self.ev(a.value, env, frame)
+                starred.append(self.ev(a.value, env, frame))
             else:
                 args.append(self.ev(a, env, frame))
         kw = {k.arg: self.ev(k.value, env, frame) for k in e.keywords}
         if self.call_hook is not None:
-            r = self.call_hook(self, e, f, args, kw, env, frame)
+            r = self.call_hook(self, e, f, args + starred, kw, env, frame)
             if r is not None:
                 return r
         if star:
@@ -1221,9 +1222,10 @@ class Interp:
         else:
             cur = self._widen(cur, env)
         # NULL-gate idiom: `for x in L: if x is None: return ...` proves L's elements non-NULL afterwards
-        self._null_gate(st, env, cur)
         out_envs.append(cur)
         res = self.join_envs(out_envs)
+        if res is not None:
+            self._null_gate(st, env, res)
         if st.orelse:
             res = self.exec_block(st.orelse, res, frame)
         return res
